@@ -20,6 +20,9 @@ NEED = ['Modify', 'Link', 'Unlink', 'AddExplicit', 'Load', 'Begin', 'Store', 'St
         'FinishThenFail', 'Savepoint', 'CommitSp']
 
 
+BUDGET = {'committed-objects': 150000}
+
+
 def configs(q):
     new = cd.consts(Obj=('a', 'b'), Edges='EdgesChain', MaxCommit=1, MaxAct=3 if q else 4, MaxTail=1,
                     Ops=('add', 'own', 'rm') if q else ('add', 'own', 'rm', 'free'))
@@ -36,21 +39,11 @@ def run(ctx):
     q = ctx.quick
     cov = K.Cover(ctx.pid, CLAUSES, FOCUS)
     items = configs(q)
-    # 1. the design
-    K.designs(ctx, items)
-    # 2. the deviations of the code, exhibited by TLC and tried on the code
     kinds = ('mapping', 'file') if q else ('mapping', 'file', 'demo')
-    small = cd.consts(Obj=('a', 'b'), Edges='EdgesFlat', MaxCommit=1, MaxAct=3, Ops=('add', 'own', 'rm'))
-    smallsp = cd.consts(Obj=('a', 'b'), Edges='EdgesFlat', MaxSp=1, MaxCommit=1, MaxAct=4, Ops=('add', 'sp'))
-    dev = {d: False for d in cd.DEVIATIONS}
-    dev['InvalidateDoomed'] = K.exhibit(ctx, cov, 'added-object-emptied', small, 'InvalidateDoomed', 'NewDisowned', kinds)
-    dev['LeakUnstored'] = K.exhibit(ctx, cov, 'unstored-object-keeps-oid', small, 'LeakUnstored', 'NewDisowned', kinds)
-    dev['AliasCreating'] = False      # needs two savepoints: no effect in these configurations (decided by C12)
-    if dev['InvalidateDoomed']:
-        K.exhibit(ctx, cov, 'savepoint-object-emptied', smallsp, 'InvalidateDoomed', 'NewDisowned', kinds)
-    # 3. conformance + clauses on the graphs of the model of the code as it is
-    budget = {'new-objects': None, 'committed-objects': None, 'one-object': None, 'with-savepoint': None}
-    K.graphs(ctx, cov, items, dev, kinds, budget=budget)
+    # 2. the deviations of the code, exhibited by TLC and tried on the code
+    dev = K.deviations(ctx, cov, kinds)
+    # 1. the design (deviations cleared) + 3. conformance and clauses on the graphs of the model of the code as it is
+    K.check_all(ctx, cov, items, dev, kinds, budget=BUDGET if q else None)
     return K.finish(ctx, cov, NEED, RULE, dev)
 
 
